@@ -199,9 +199,10 @@ structure TFrame (k : Nat) (w w' : World) : Prop where
   len : w'.conns.length = w.conns.length
   phase : w'.phase = w.phase
   stopped : w'.stopped = w.stopped
+  ctxCancelled : w'.ctxCancelled = w.ctxCancelled
 
 theorem TFrame.refl (k : Nat) (w : World) : TFrame k w w :=
-  ⟨rfl, rfl, rfl, rfl, rfl, rfl, rfl, fun _ h => h, fun _ => ⟨rfl, rfl⟩, rfl, rfl, rfl⟩
+  ⟨rfl, rfl, rfl, rfl, rfl, rfl, rfl, fun _ h => h, fun _ => ⟨rfl, rfl⟩, rfl, rfl, rfl, rfl⟩
 
 theorem TFrame.trans {k : Nat} {a b c : World} (h1 : TFrame k a b) (h2 : TFrame k b c) :
     TFrame k a c where
@@ -222,6 +223,7 @@ theorem TFrame.trans {k : Nat} {a b c : World} (h1 : TFrame k a b) (h2 : TFrame 
   len := h2.len.trans h1.len
   phase := h2.phase.trans h1.phase
   stopped := h2.stopped.trans h1.stopped
+  ctxCancelled := h2.ctxCancelled.trans h1.ctxCancelled
 
 /-- the sub/unsub call an entry of the retry queue stands for -/
 def entryCall : Entry → Option SubCall
@@ -315,7 +317,7 @@ theorem send_spec (w : World) (k : Nat) (p : Pkt) (waits : Bool) :
     | nil =>
       simp only [nextFault, hf]
       exact ⟨⟨rfl, rfl, rfl, rfl, rfl, rfl, rfl, fun j h => (alive_logPkt w k p _ j) ▸ h,
-        fun h => (by rw [ha] at h; cases h), by simp, rfl, rfl⟩, rfl, rfl, rfl, by simp, fun _ => rfl,
+        fun h => (by rw [ha] at h; cases h), by simp, rfl, rfl, rfl⟩, rfl, rfl, rfl, by simp, fun _ => rfl,
         Or.inr (process_subs _ _), fun _ _ => process_subs _ _⟩
     | cons f rest =>
       simp only [nextFault, hf]
@@ -325,36 +327,36 @@ theorem send_spec (w : World) (k : Nat) (p : Pkt) (waits : Bool) :
       have hd : (getConn w k).alive = false → ∀ (P : Prop), P := fun h => by rw [ha] at h; cases h
       cases f with
       | ok =>
-        exact ⟨⟨rfl, rfl, rfl, rfl, rfl, rfl, rfl, hal, fun h => hd h _, by simp, rfl, rfl⟩, rfl, rfl, rfl, by simp,
+        exact ⟨⟨rfl, rfl, rfl, rfl, rfl, rfl, rfl, hal, fun h => hd h _, by simp, rfl, rfl, rfl⟩, rfl, rfl, rfl, by simp,
           fun _ => rfl, Or.inr (process_subs _ _), fun _ _ => process_subs _ _⟩
       | writeFail =>
         exact ⟨⟨rfl, rfl, rfl, rfl, rfl, rfl, rfl, fun j h => hal j (alive_kill _ _ j h),
-          fun h => hd h _, by simp, rfl, rfl⟩, rfl, rfl, rfl, by simp, fun _ => rfl, Or.inl rfl, by simp⟩
+          fun h => hd h _, by simp, rfl, rfl, rfl⟩, rfl, rfl, rfl, by simp, fun _ => rfl, Or.inl rfl, by simp⟩
       | lostReq =>
         refine ⟨⟨rfl, rfl, rfl, rfl, rfl, rfl, rfl, fun j h => hal j (alive_kill _ _ j h),
-          fun h => hd h _, by simp, rfl, rfl⟩, rfl, rfl, rfl, ?_, fun _ => rfl, Or.inl rfl, ?_⟩
+          fun h => hd h _, by simp, rfl, rfl, rfl⟩, rfl, rfl, rfl, ?_, fun _ => rfl, Or.inl rfl, ?_⟩
         · cases waits <;> simp
         · intro hw; simp [hw]
       | lostAck =>
         refine ⟨⟨rfl, rfl, rfl, rfl, rfl, rfl, rfl, fun j h => hal j (alive_kill _ _ j h),
-          fun h => hd h _, by simp, rfl, rfl⟩, rfl, rfl, rfl, ?_, fun _ => rfl, Or.inr (process_subs _ _), ?_⟩
+          fun h => hd h _, by simp, rfl, rfl, rfl⟩, rfl, rfl, rfl, ?_, fun _ => rfl, Or.inr (process_subs _ _), ?_⟩
         · cases waits <;> simp
         · intro hw; simp [hw]
       | silent =>
         cases waits with
         | false =>
-          exact ⟨⟨rfl, rfl, rfl, rfl, rfl, rfl, rfl, hal, fun h => hd h _, by simp, rfl, rfl⟩, rfl, rfl, rfl, by simp,
+          exact ⟨⟨rfl, rfl, rfl, rfl, rfl, rfl, rfl, hal, fun h => hd h _, by simp, rfl, rfl, rfl⟩, rfl, rfl, rfl, by simp,
             fun _ => rfl, Or.inr (process_subs _ _), by simp⟩
         | true =>
           simp only [not_true_eq_false, if_false]
           split
-          · exact ⟨⟨rfl, rfl, rfl, rfl, rfl, rfl, rfl, hal, fun h => hd h _, by simp, rfl, rfl⟩, rfl, rfl, rfl, by simp,
+          · exact ⟨⟨rfl, rfl, rfl, rfl, rfl, rfl, rfl, hal, fun h => hd h _, by simp, rfl, rfl, rfl⟩, rfl, rfl, rfl, by simp,
               fun _ => rfl, Or.inr (process_subs _ _), by simp⟩
-          · exact ⟨⟨rfl, rfl, rfl, rfl, rfl, rfl, rfl, hal, fun h => hd h _, by simp, rfl, rfl⟩, rfl, rfl, rfl,
+          · exact ⟨⟨rfl, rfl, rfl, rfl, rfl, rfl, rfl, hal, fun h => hd h _, by simp, rfl, rfl, rfl⟩, rfl, rfl, rfl,
               fun _ => rfl, by simp, Or.inr (process_subs _ _), by simp⟩
   · simp only [ha]
     exact ⟨⟨rfl, rfl, rfl, rfl, rfl, rfl, rfl, fun j h => (alive_logPkt w k p _ j) ▸ h,
-      fun _ => ⟨rfl, rfl⟩, by simp, rfl, rfl⟩, rfl, rfl, rfl, by simp, fun _ => rfl, Or.inl rfl, by simp⟩
+      fun _ => ⟨rfl, rfl⟩, by simp, rfl, rfl, rfl⟩, rfl, rfl, rfl, by simp, fun _ => rfl, Or.inl rfl, by simp⟩
 
 /-- a silent step: nothing of interest changes -/
 structure PreFrame (k : Nat) (w w' : World) : Prop where
@@ -385,7 +387,7 @@ theorem preFrame_ctr (w : World) (k : Nat) (n : Nat) :
     PreFrame k w (setConn w k { getConn w k with ctr := n }) :=
   ⟨⟨rfl, rfl, rfl, rfl, rfl, rfl, rfl,
     fun j h => (alive_setConn_same w k { getConn w k with ctr := n } rfl j) ▸ h,
-    fun _ => ⟨rfl, rfl⟩, by simp, rfl, rfl⟩, rfl, rfl, rfl, rfl, rfl⟩
+    fun _ => ⟨rfl, rfl⟩, by simp, rfl, rfl, rfl⟩, rfl, rfl, rfl, rfl, rfl⟩
 
 /-- the common tail of `subAttempt`, `unsubAttempt`, `relAttempt` -/
 def finish (r : World × Sent) (rq : Req) (h : Entry) : World × Outcome :=
@@ -402,7 +404,7 @@ theorem finish_spec {k : Nat} {p : Pkt} {w : World} {r : World × Sent} (rq : Re
   cases s with
   | acked =>
     exact ⟨⟨fr.taskQ, fr.accepted, fr.initialized, fr.cli, fr.goroutine, fr.gConnected, fr.connReady,
-      fr.alive, fr.dead, fr.len, fr.phase, fr.stopped⟩, hs.retryQ, hs.subEst, hs.closeAfterTask, by simp [finish],
+      fr.alive, fr.dead, fr.len, fr.phase, fr.stopped, fr.ctxCancelled⟩, hs.retryQ, hs.subEst, hs.closeAfterTask, by simp [finish],
       fun _ => hs.nstuck (by simp), by simp [finish], by simp [finish],
       Or.inr (hs.acked rfl rfl), fun _ => hs.acked rfl rfl⟩
   | stuck =>
@@ -477,7 +479,7 @@ theorem pubFinish_spec {k m qos id : Nat} {dup b : Bool} {w : World} {r : World 
     · exact (relAttempt_spec w2 k m id).pre pf
     · split
       · exact ⟨⟨fr.taskQ, fr.accepted, fr.initialized, fr.cli, fr.goroutine, fr.gConnected,
-          fr.connReady, fr.alive, fr.dead, fr.len, fr.phase, fr.stopped⟩, hs.retryQ, hs.subEst, hs.closeAfterTask, by simp,
+          fr.connReady, fr.alive, fr.dead, fr.len, fr.phase, fr.stopped, fr.ctxCancelled⟩, hs.retryQ, hs.subEst, hs.closeAfterTask, by simp,
           fun _ => hst, by simp, by simp, Or.inl hsub, fun _ => hsub⟩
       · exact ⟨fr, hs.retryQ, hs.subEst, hs.closeAfterTask, by simp,
           fun _ => hst, by simp, by simp, Or.inl hsub, fun _ => hsub⟩
@@ -520,7 +522,7 @@ theorem pubAttempt_spec (w : World) (k m qos : Nat) (dup : Bool) :
     exact ⟨⟨rfl, rfl, rfl, rfl, rfl, rfl, rfl,
       fun j h => (alive_setConn_same { w with pid := w.pid ++ [(m, (newID (getConn w k).ctr).2)] } k
         { getConn w k with ctr := (newID (getConn w k).ctr).1 } rfl j) ▸ h,
-      fun _ => ⟨rfl, rfl⟩, by simp, rfl, rfl⟩, rfl, rfl, rfl, rfl, rfl⟩
+      fun _ => ⟨rfl, rfl⟩, by simp, rfl, rfl, rfl⟩, rfl, rfl, rfl, rfl, rfl⟩
 
 /-- what a first-transmission closure (attempt + `absorb`) standing for the call `oc` does -/
 structure FirstSpec (k : Nat) (oc : Option SubCall) (w w' : World) : Prop where
@@ -552,7 +554,7 @@ theorem absorb_spec {k : Nat} {oc : Option SubCall} {w : World} {r : World × Ou
       | inr h => exact h
     | some h =>
       refine ⟨⟨fr.taskQ, fr.accepted, fr.initialized, fr.cli, fr.goroutine, fr.gConnected,
-        fr.connReady, fr.alive, fr.dead, fr.len, fr.phase, fr.stopped⟩, a.subEst, Or.inr ⟨a.nstuck (by simp), Or.inr ⟨h, ?_,
+        fr.connReady, fr.alive, fr.dead, fr.len, fr.phase, fr.stopped, fr.ctxCancelled⟩, a.subEst, Or.inr ⟨a.nstuck (by simp), Or.inr ⟨h, ?_,
         a.handle h e rfl, rfl, a.subs⟩⟩⟩
       show w1.retryQ ++ [h] = w.retryQ ++ [h]
       rw [a.retryQ]
@@ -637,9 +639,10 @@ structure ReqSpec (k : Nat) (oc : Option SubCall) (w w' : World) : Prop where
 theorem tframe_of_eqs {k : Nat} {w w' : World} (h1 : w'.taskQ = w.taskQ) (h2 : w'.accepted = w.accepted)
     (h3 : w'.initialized = w.initialized) (h4 : w'.cli = w.cli) (h5 : w'.goroutine = w.goroutine)
     (h6 : w'.gConnected = w.gConnected) (h7 : w'.connReady = w.connReady) (h8 : w'.conns = w.conns)
-    (h9 : w'.broker = w.broker) (h10 : w'.stuck = w.stuck) (h11 : w'.phase = w.phase) (h12 : w'.stopped = w.stopped) :
+    (h9 : w'.broker = w.broker) (h10 : w'.stuck = w.stuck) (h11 : w'.phase = w.phase) (h12 : w'.stopped = w.stopped)
+    (h13 : w'.ctxCancelled = w.ctxCancelled) :
     TFrame k w w' :=
-  ⟨h1, h2, h3, h4, h5, h6, h7, fun j h => by simpa [getConn, h8] using h, fun _ => ⟨by rw [h9], h10⟩, by rw [h8], h11, h12⟩
+  ⟨h1, h2, h3, h4, h5, h6, h7, fun j h => by simpa [getConn, h8] using h, fun _ => ⟨by rw [h9], h10⟩, by rw [h8], h11, h12, h13⟩
 
 /-- shared shape of the three request tasks: update the record, then transmit or queue -/
 theorem reqTask_spec {k : Nat} {oc : Option SubCall} {w w1 wf : World} (q : Entry)
@@ -659,7 +662,7 @@ theorem reqTask_spec {k : Nat} {oc : Option SubCall} {w w1 wf : World} (q : Entr
       rw [hP1] at this
       exact this
   · rw [if_neg hem]
-    refine ⟨h1.trans (tframe_of_eqs rfl rfl rfl rfl rfl rfl rfl rfl rfl rfl rfl rfl), h1e.1, h1e.2,
+    refine ⟨h1.trans (tframe_of_eqs rfl rfl rfl rfl rfl rfl rfl rfl rfl rfl rfl rfl rfl), h1e.1, h1e.2,
       fun _ => ⟨?_, h1b ▸ hb⟩⟩
     show (pendOf (w1.retryQ ++ [q])).foldl netStep (Bm w1) = _
     rw [pendOf_append_single, hq, ← hP1]
@@ -670,7 +673,7 @@ theorem subscribeTask_spec (w : World) (k : Nat) (s : List Subscription)
     ReqSpec k (some (.sub s)) w (subscribeTask w k s) := by
   have hsp := applySubs_spec w.subEst s he
   exact reqTask_spec (w1 := { w with subEst := applySubs w.subEst s }) (.qSub s) rfl hb
-    (tframe_of_eqs rfl rfl rfl rfl rfl rfl rfl rfl rfl rfl rfl rfl) rfl rfl ⟨hsp.1, hsp.2⟩
+    (tframe_of_eqs rfl rfl rfl rfl rfl rfl rfl rfl rfl rfl rfl rfl rfl) rfl rfl ⟨hsp.1, hsp.2⟩
     (firstSub_spec _ k s)
 
 theorem runTask_req_spec (w : World) (k : Nat) (r : Req)
@@ -681,7 +684,7 @@ theorem runTask_req_spec (w : World) (k : Nat) (r : Req)
   | unsub ts =>
     have hsp := applyUnsubs_spec w.subEst ts he
     exact reqTask_spec (w1 := { w with subEst := applyUnsubs w.subEst ts }) (.qUnsub ts) rfl hb
-      (tframe_of_eqs rfl rfl rfl rfl rfl rfl rfl rfl rfl rfl rfl rfl) rfl rfl ⟨hsp.1, hsp.2⟩
+      (tframe_of_eqs rfl rfl rfl rfl rfl rfl rfl rfl rfl rfl rfl rfl rfl) rfl rfl ⟨hsp.1, hsp.2⟩
       (firstUnsub_spec _ k ts)
   | pub m qos =>
     by_cases hq : 0 < qos
@@ -714,8 +717,8 @@ theorem subscribeTask_frame (w : World) (k : Nat) (s : List Subscription) :
   simp only [subscribeTask]
   split
   · exact (tframe_of_eqs (w := w) (w' := { w with subEst := applySubs w.subEst s })
-      rfl rfl rfl rfl rfl rfl rfl rfl rfl rfl rfl rfl).trans (firstSub_spec _ k s).frame
-  · exact tframe_of_eqs rfl rfl rfl rfl rfl rfl rfl rfl rfl rfl rfl rfl
+      rfl rfl rfl rfl rfl rfl rfl rfl rfl rfl rfl rfl rfl).trans (firstSub_spec _ k s).frame
+  · exact tframe_of_eqs rfl rfl rfl rfl rfl rfl rfl rfl rfl rfl rfl rfl rfl
 
 theorem resubLoop_frame (l : SubList) (w : World) (k : Nat) : TFrame k w (resubLoop w k l) := by
   induction l generalizing w with
@@ -759,7 +762,7 @@ theorem runTask_resub_spec (w : World) (k : Nat)
         ∀ t, Pm (runTask w k .resubscribe) t = (Em w t).or (Pm w t)) := by
   have sp := resubLoop_spec w.subEst { w with subEst := [] } k hb noDupTopics_nil
   refine ⟨(tframe_of_eqs (w := w) (w' := { w with subEst := [] })
-    rfl rfl rfl rfl rfl rfl rfl rfl rfl rfl rfl rfl).trans sp.1, fun hs => ?_⟩
+    rfl rfl rfl rfl rfl rfl rfl rfl rfl rfl rfl rfl rfl).trans sp.1, fun hs => ?_⟩
   obtain ⟨a, b, c, d⟩ := sp.2 hs
   refine ⟨a, b, ?_, fun t => ?_⟩
   · show Em (resubLoop { w with subEst := [] } k w.subEst) = _
@@ -853,14 +856,14 @@ theorem retryLoop_frame (l : List Entry) (w : World) (k : Nat) :
   | cons e rest ih =>
     rw [retryLoop_cons]
     split
-    · exact ⟨tframe_of_eqs rfl rfl rfl rfl rfl rfl rfl rfl rfl rfl rfl rfl, rfl⟩
+    · exact ⟨tframe_of_eqs rfl rfl rfl rfl rfl rfl rfl rfl rfl rfl rfl rfl rfl, rfl⟩
     · have h0 : TFrame k w { w with totalRetries := w.totalRetries + 1 } :=
-        tframe_of_eqs rfl rfl rfl rfl rfl rfl rfl rfl rfl rfl rfl rfl
+        tframe_of_eqs rfl rfl rfl rfl rfl rfl rfl rfl rfl rfl rfl rfl rfl
       obtain ⟨W, f, hc⟩ := retryTail_cases { w with totalRetries := w.totalRetries + 1 } k e rest
       rcases hc with ⟨h, _⟩ | ⟨_, h⟩ | ⟨_, h⟩
       · rw [h]; exact ⟨h0.trans f.frame, f.subEst⟩
       · rw [h]
-        exact ⟨h0.trans (f.frame.trans (tframe_of_eqs rfl rfl rfl rfl rfl rfl rfl rfl rfl rfl rfl rfl)),
+        exact ⟨h0.trans (f.frame.trans (tframe_of_eqs rfl rfl rfl rfl rfl rfl rfl rfl rfl rfl rfl rfl rfl)),
           f.subEst⟩
       · rw [h]
         exact ⟨h0.trans (f.frame.trans (ih W).1), (ih W).2.trans f.subEst⟩
@@ -932,7 +935,7 @@ theorem runTask_retry_spec (w : World) (k : Nat) (hb : NoDupTopics w.broker.subs
         NoDupTopics (runTask w k .retry).broker.subs ∧ Pm (runTask w k .retry) = Pm w) := by
   have fr := retryLoop_frame w.retryQ { w with retryQ := [] } k
   refine ⟨(tframe_of_eqs (w := w) (w' := { w with retryQ := [] })
-    rfl rfl rfl rfl rfl rfl rfl rfl rfl rfl rfl rfl).trans fr.1, fr.2, fun hs => ?_⟩
+    rfl rfl rfl rfl rfl rfl rfl rfl rfl rfl rfl rfl rfl).trans fr.1, fr.2, fun hs => ?_⟩
   exact retryLoop_spec w.retryQ { w with retryQ := [] } k rfl hb hs
 
 theorem runTask_disconnect_spec (w : World) (k : Nat) :
@@ -942,10 +945,10 @@ theorem runTask_disconnect_spec (w : World) (k : Nat) :
   simp only [runTask]
   split
   · exact ⟨⟨rfl, rfl, rfl, rfl, rfl, rfl, rfl,
-      fun j h => (alive_logPkt w k _ _ j) ▸ (alive_kill _ _ j h), fun _ => ⟨rfl, rfl⟩, by simp, rfl, rfl⟩,
+      fun j h => (alive_logPkt w k _ _ j) ▸ (alive_kill _ _ j h), fun _ => ⟨rfl, rfl⟩, by simp, rfl, rfl, rfl⟩,
       rfl, rfl, rfl, rfl⟩
   · exact ⟨⟨rfl, rfl, rfl, rfl, rfl, rfl, rfl,
-      fun j h => (alive_logPkt w k _ _ j) ▸ h, fun _ => ⟨rfl, rfl⟩, by simp, rfl, rfl⟩, rfl, rfl, rfl, rfl⟩
+      fun j h => (alive_logPkt w k _ _ j) ▸ h, fun _ => ⟨rfl, rfl⟩, by simp, rfl, rfl, rfl⟩, rfl, rfl, rfl, rfl⟩
 
 /-! ### the task goroutine -/
 
@@ -1010,13 +1013,17 @@ theorem callsOf_append_single (l : List Req) (r : Req) (m : SubMap) :
     List.filterMap_nil]
   cases reqCall r <;> rfl
 
+/-- `sup`: the pending calls replayed on the broker's table cover the record, unless a `Resubscribe`
+    is waiting, or the loop has exited AFTER DISCONNECT (then an accepted CONNACK with the session lost
+    no longer re-subscribes). An exit caused by the cancellation of the context given to Connect
+    (`stopped = false`) does not need the exemption: no CONNACK is accepted afterwards. -/
 structure Good (w : World) : Prop where
   nodupE : NoDupTopics w.subEst
   nodupB : NoDupTopics w.broker.subs
   procd : ∃ processed, w.accepted = processed ++ reqsOf w.taskQ ∧
     Em w = netEffect (callsOf processed)
   weak : RWeak (Pm w) (Em w)
-  sup : w.phase = .exited ∨ Task.resubscribe ∈ w.taskQ ∨ RSup (Pm w) (Em w)
+  sup : (w.phase = .exited ∧ w.stopped = true) ∨ Task.resubscribe ∈ w.taskQ ∨ RSup (Pm w) (Em w)
 
 /-- the invariant: as long as the client is not blocked for ever inside a request -/
 def Inv (w : World) : Prop := w.stuck = false → Good w
@@ -1041,7 +1048,7 @@ theorem reqsOf_cons_disc (rest : List Task) : reqsOf (.disconnect :: rest) = req
 theorem good_runTask (w w1 : World) (k : Nat) (t : Task) (rest : List Task) (g : Good w)
     (htq : w.taskQ = t :: rest) (e1 : w1.taskQ = rest) (e2 : w1.accepted = w.accepted)
     (e3 : w1.subEst = w.subEst) (e4 : w1.retryQ = w.retryQ) (e5 : w1.broker = w.broker)
-    (e6 : w1.phase = w.phase) :
+    (e6 : w1.phase = w.phase) (e7 : w1.stopped = w.stopped) :
     Inv (runTask w1 k t) := by
   intro hs
   obtain ⟨pr, hacc, hem⟩ := g.procd
@@ -1060,7 +1067,7 @@ theorem good_runTask (w w1 : World) (k : Nat) (t : Task) (rest : List Task) (g :
       simp only [netEffect]
       rw [callsOf_append_single]
     · rw [sp.em, hp, hE1, hP1]; exact rweak_stepO g.weak _
-    · rw [sp.frame.taskQ, e1, sp.frame.phase, e6]
+    · rw [sp.frame.taskQ, e1, sp.frame.phase, e6, sp.frame.stopped, e7]
       rcases g.sup with h | h | h
       · exact Or.inl h
       · rw [htq] at h; simp at h; exact Or.inr (Or.inl h)
@@ -1090,7 +1097,7 @@ theorem good_runTask (w w1 : World) (k : Nat) (t : Task) (rest : List Task) (g :
     refine ⟨sp.2.1 ▸ ne, b, ⟨pr, ?_, hE.trans hem⟩, ?_, ?_⟩
     · rw [sp.1.accepted, sp.1.taskQ, e1, e2, hacc, htq, reqsOf_cons_retry]
     · rw [hE, hp, hP1]; exact g.weak
-    · rw [sp.1.taskQ, hE, hp, hP1, e1, sp.1.phase, e6]
+    · rw [sp.1.taskQ, hE, hp, hP1, e1, sp.1.phase, e6, sp.1.stopped, e7]
       rcases g.sup with h | h | h
       · exact Or.inl h
       · rw [htq] at h; simp at h; exact Or.inr (Or.inl h)
@@ -1102,7 +1109,7 @@ theorem good_runTask (w w1 : World) (k : Nat) (t : Task) (rest : List Task) (g :
     refine ⟨h1 ▸ ne, h3 ▸ nb, ⟨pr, ?_, hE.trans hem⟩, ?_, ?_⟩
     · rw [fr.accepted, fr.taskQ, e1, e2, hacc, htq, reqsOf_cons_disc]
     · rw [hE, hP]; exact g.weak
-    · rw [fr.taskQ, hE, hP, e1, fr.phase, e6]
+    · rw [fr.taskQ, hE, hP, e1, fr.phase, e6, fr.stopped, e7]
       rcases g.sup with h | h | h
       · exact Or.inl h
       · rw [htq] at h; simp at h; exact Or.inr (Or.inl h)
@@ -1115,23 +1122,23 @@ theorem runTask_req_frame (w : World) (k : Nat) (r : Req) : TFrame k w (runTask 
     simp only [runTask]
     split
     · exact (tframe_of_eqs (w := w) (w' := { w with subEst := applyUnsubs w.subEst ts })
-        rfl rfl rfl rfl rfl rfl rfl rfl rfl rfl rfl rfl).trans (firstUnsub_spec _ k ts).frame
-    · exact tframe_of_eqs rfl rfl rfl rfl rfl rfl rfl rfl rfl rfl rfl rfl
+        rfl rfl rfl rfl rfl rfl rfl rfl rfl rfl rfl rfl rfl).trans (firstUnsub_spec _ k ts).frame
+    · exact tframe_of_eqs rfl rfl rfl rfl rfl rfl rfl rfl rfl rfl rfl rfl rfl
   | pub m qos =>
     simp only [runTask]
     split
     · exact (firstPub_spec w k m qos).frame
     · split
-      · exact tframe_of_eqs rfl rfl rfl rfl rfl rfl rfl rfl rfl rfl rfl rfl
+      · exact tframe_of_eqs rfl rfl rfl rfl rfl rfl rfl rfl rfl rfl rfl rfl rfl
       · exact TFrame.refl k w
 
 theorem runTask_frame (w : World) (k : Nat) (t : Task) : TFrame k w (runTask w k t) := by
   cases t with
   | req r => exact runTask_req_frame w k r
   | resubscribe => exact (tframe_of_eqs (k := k) (w := w) (w' := { w with subEst := [] })
-      rfl rfl rfl rfl rfl rfl rfl rfl rfl rfl rfl rfl).trans (resubLoop_frame _ _ k)
+      rfl rfl rfl rfl rfl rfl rfl rfl rfl rfl rfl rfl rfl).trans (resubLoop_frame _ _ k)
   | retry => exact (tframe_of_eqs (k := k) (w := w) (w' := { w with retryQ := [] })
-      rfl rfl rfl rfl rfl rfl rfl rfl rfl rfl rfl rfl).trans (retryLoop_frame _ _ k).1
+      rfl rfl rfl rfl rfl rfl rfl rfl rfl rfl rfl rfl rfl).trans (retryLoop_frame _ _ k).1
   | disconnect => exact (runTask_disconnect_spec w k).1
 
 
@@ -1140,7 +1147,8 @@ theorem runTask_cli (w : World) (k : Nat) (t : Task) : (runTask w k t).cli = w.c
 
 theorem good_of_eqs {w w' : World} (g : Good w) (h1 : w'.taskQ = w.taskQ)
     (h2 : w'.accepted = w.accepted) (h3 : w'.subEst = w.subEst) (h4 : w'.retryQ = w.retryQ)
-    (h5 : w'.broker.subs = w.broker.subs) (h6 : w.phase = .exited → w'.phase = .exited) :
+    (h5 : w'.broker.subs = w.broker.subs)
+    (h6 : (w.phase = .exited ∧ w.stopped = true) → (w'.phase = .exited ∧ w'.stopped = true)) :
     Good w' := by
   have hE : Em w' = Em w := by simp only [Em, h3]
   have hP : Pm w' = Pm w := by simp only [Pm, Bm, h4, h5]
@@ -1155,7 +1163,8 @@ theorem good_of_eqs {w w' : World} (g : Good w) (h1 : w'.taskQ = w.taskQ)
 
 theorem inv_of_eqs {w w' : World} (g : Inv w) (h0 : w'.stuck = w.stuck) (h1 : w'.taskQ = w.taskQ)
     (h2 : w'.accepted = w.accepted) (h3 : w'.subEst = w.subEst) (h4 : w'.retryQ = w.retryQ)
-    (h5 : w'.broker.subs = w.broker.subs) (h6 : w.phase = .exited → w'.phase = .exited) : Inv w' :=
+    (h5 : w'.broker.subs = w.broker.subs)
+    (h6 : (w.phase = .exited ∧ w.stopped = true) → (w'.phase = .exited ∧ w'.stopped = true)) : Inv w' :=
   fun hs => good_of_eqs (g (h0 ▸ hs)) h1 h2 h3 h4 h5 h6
 
 theorem runTasks_inv (n : Nat) (w : World) (h : Inv w) : Inv (runTasks n w) := by
@@ -1163,7 +1172,7 @@ theorem runTasks_inv (n : Nat) (w : World) (h : Inv w) : Inv (runTasks n w) := b
   · intro w h _ _ _
     exact inv_of_eqs h rfl rfl rfl rfl rfl rfl id
   · intro w k t rest h htq _ hs _ _
-    exact good_runTask w _ k t rest (h hs) htq rfl rfl rfl rfl rfl rfl
+    exact good_runTask w _ k t rest (h hs) htq rfl rfl rfl rfl rfl rfl rfl
   · intro w k h _ _
     exact inv_of_eqs h rfl rfl rfl rfl rfl rfl id
 
@@ -1183,9 +1192,48 @@ theorem loopReact_eqs (w : World) :
     · split <;> simp_all
   · simp
 
+theorem runTasks_stopped (n : Nat) (w : World) : (runTasks n w).stopped = w.stopped := by
+  refine runTasks_induct (fun w' => w'.stopped = w.stopped) ?_ ?_ ?_ runTask_cli n w rfl
+  · intro w' h _ _ _; exact h
+  · intro w' k t rest h _ _ _ _ _
+    exact (runTask_frame { w' with taskQ := rest, totalTasks := w'.totalTasks + 1 } k t).stopped.trans h
+  · intro w' k h _ _; exact h
+
+theorem runTasks_ctx (n : Nat) (w : World) : (runTasks n w).ctxCancelled = w.ctxCancelled := by
+  refine runTasks_induct (fun w' => w'.ctxCancelled = w.ctxCancelled) ?_ ?_ ?_ runTask_cli n w rfl
+  · intro w' h _ _ _; exact h
+  · intro w' k t rest h _ _ _ _ _
+    exact (runTask_frame { w' with taskQ := rest, totalTasks := w'.totalTasks + 1 } k t).ctxCancelled.trans h
+  · intro w' k h _ _; exact h
+
+theorem loopReact_ctx (w : World) : (loopReact w).ctxCancelled = w.ctxCancelled := by
+  unfold loopReact
+  split
+  · split
+    · rfl
+    · split <;> rfl
+  · rfl
+
+theorem progress_ctx (w : World) : (progress w).ctxCancelled = w.ctxCancelled := by
+  unfold progress
+  rw [loopReact_ctx, runTasks_ctx]
+
+theorem loopReact_stopped (w : World) : (loopReact w).stopped = w.stopped := by
+  unfold loopReact
+  split
+  · split
+    · rfl
+    · split <;> rfl
+  · rfl
+
+theorem progress_stopped (w : World) : (progress w).stopped = w.stopped := by
+  unfold progress
+  rw [loopReact_stopped, runTasks_stopped]
+
 theorem progress_inv (w : World) (h : Inv w) : Inv (progress w) := by
   obtain ⟨a, b, c, d, e, f, _, _, _, _, _, _, _, hx⟩ := loopReact_eqs (runTasks (w.taskQ.length + 1) w)
-  exact inv_of_eqs (runTasks_inv _ w h) a b c d e (congrArg Broker.subs f) hx
+  exact inv_of_eqs (runTasks_inv _ w h) a b c d e (congrArg Broker.subs f)
+    (fun hh => ⟨hx hh.1, (loopReact_stopped _).trans hh.2⟩)
 
 /-- before the first accepted CONNACK nothing has reached the broker: the task goroutine can only
     run on a connection that is already dead -/
@@ -1292,9 +1340,10 @@ structure Same (w w' : World) : Prop where
   len : w'.conns.length = w.conns.length
   alive : ∀ j, (getConn w' j).alive = (getConn w j).alive
   stopped : w'.stopped = w.stopped
+  ctxCancelled : w'.ctxCancelled = w.ctxCancelled
 
 theorem Same.refl (w : World) : Same w w :=
-  ⟨rfl, rfl, rfl, rfl, rfl, rfl, rfl, rfl, rfl, rfl, rfl, rfl, rfl, rfl, fun _ => rfl, rfl⟩
+  ⟨rfl, rfl, rfl, rfl, rfl, rfl, rfl, rfl, rfl, rfl, rfl, rfl, rfl, rfl, fun _ => rfl, rfl, rfl⟩
 
 theorem Same.trans {a b c : World} (h1 : Same a b) (h2 : Same b c) : Same a c :=
   ⟨h2.stuck.trans h1.stuck, h2.taskQ.trans h1.taskQ, h2.accepted.trans h1.accepted,
@@ -1302,7 +1351,7 @@ theorem Same.trans {a b c : World} (h1 : Same a b) (h2 : Same b c) : Same a c :=
     h2.initialized.trans h1.initialized, h2.cli.trans h1.cli, h2.goroutine.trans h1.goroutine,
     h2.gConnected.trans h1.gConnected, h2.connReady.trans h1.connReady, h2.cfg.trans h1.cfg,
     h2.phase.trans h1.phase, h2.len.trans h1.len, fun j => (h2.alive j).trans (h1.alive j),
-    h2.stopped.trans h1.stopped⟩
+    h2.stopped.trans h1.stopped, h2.ctxCancelled.trans h1.ctxCancelled⟩
 
 theorem deliverInbound_same (w : World) (k m qos : Nat) : Same w (deliverInbound w k m qos) := by
   unfold deliverInbound
@@ -1312,8 +1361,8 @@ theorem deliverInbound_same (w : World) (k m qos : Nat) : Same w (deliverInbound
   · split <;> split
     all_goals first
       | exact ⟨rfl, rfl, rfl, rfl, rfl, rfl, rfl, rfl, rfl, rfl, rfl, rfl, rfl, by simp,
-          fun j => alive_logPkt _ _ _ _ j, rfl⟩
-      | exact ⟨rfl, rfl, rfl, rfl, rfl, rfl, rfl, rfl, rfl, rfl, rfl, rfl, rfl, rfl, fun _ => rfl, rfl⟩
+          fun j => alive_logPkt _ _ _ _ j, rfl, rfl⟩
+      | exact ⟨rfl, rfl, rfl, rfl, rfl, rfl, rfl, rfl, rfl, rfl, rfl, rfl, rfl, rfl, fun _ => rfl, rfl, rfl⟩
 
 theorem inbFold_same (inb : List (Nat × Nat)) (w : World) (k : Nat) :
     Same w (inb.foldl (fun w (mq : Nat × Nat) => deliverInbound w k mq.1 mq.2) w) := by
@@ -1323,7 +1372,7 @@ theorem inbFold_same (inb : List (Nat × Nat)) (w : World) (k : Nat) :
 
 theorem inv_of_same {w w' : World} (s : Same w w') (h : Inv w) : Inv w' :=
   inv_of_eqs h s.stuck s.taskQ s.accepted s.subEst s.retryQ (congrArg Broker.subs s.broker)
-    (fun hx => s.phase ▸ hx)
+    (fun hx => ⟨s.phase ▸ hx.1, s.stopped ▸ hx.2⟩)
 
 theorem invK_of_same {w w' : World} (s : Same w w') (h : InvK w) : InvK w' :=
   invK_of h s.initialized (congrArg Broker.subs s.broker) s.stuck (fun h => s.gConnected ▸ h)
@@ -1430,7 +1479,7 @@ theorem connackPre_taskQ' (w : World) (k : Nat) (sp : Bool) (inb : List (Nat × 
 theorem connackPre_inv (w : World) (k : Nat) (sp : Bool) (inb : List (Nat × Nat))
     (hph : w.phase = .connackGate k) (h : Inv w) (hk : InvK w) : Inv (connackPre w k sp inb) := by
   obtain ⟨f1, f2, f3, f4, f5, f6, f7, f8, _, _, _, _, f13⟩ := cp3_fields w k sp inb
-  obtain ⟨p1, p2, p3, p4, p5, p6, _, _, _, _, _, p12, _⟩ := connackPre_fields w k sp inb
+  obtain ⟨p1, p2, p3, p4, p5, p6, _, _, _, _, _, p12, p13⟩ := connackPre_fields w k sp inb
   intro hs
   have hs' : w.stuck = false := by rw [← f1, ← p1]; exact hs
   have g := h hs'
@@ -1459,14 +1508,14 @@ theorem connackPre_inv (w : World) (k : Nat) (sp : Bool) (inb : List (Nat × Nat
     cases sp
     · exact rweak_clear _ g.weak
     · exact g.weak
-  · rw [hE, hP, e1, p12, f13]
+  · rw [hE, hP, e1, p12, p13, f13]
     by_cases hst : w.stopped = true
-    · left; rw [if_pos hst]
+    · left; rw [if_pos hst]; exact ⟨rfl, hst⟩
     · by_cases hc : w.initialized = true ∧ (¬ sp = true ∨ w.cfg.always = true) ∧ ¬ w.stopped = true
       · right; left; rw [if_pos hc]; simp
       · right
         rcases g.sup with h | h | h
-        · rw [hph] at h; cases h
+        · have h1 := h.1; rw [hph] at h1; cases h1
         · left; exact List.mem_append_left _ (List.mem_append_left _ h)
         · right
           cases sp with
@@ -1535,7 +1584,7 @@ theorem connectFailed_all (w : World) (k : Nat) (hph : w.phase = .connackGate k)
   unfold connectFailed
   dsimp only
   split
-  · refine ⟨inv_of_eqs h rfl rfl rfl rfl rfl rfl (fun h => hx h _), ?_, fun k' hk' => by cases hk'⟩
+  · refine ⟨inv_of_eqs h rfl rfl rfl rfl rfl rfl (fun h => hx h.1 _), ?_, fun k' hk' => by cases hk'⟩
     intro hi
     obtain ⟨a, b, c, d⟩ := hk hi
     refine ⟨a, b, fun _ k' hk' => ?_, d⟩
@@ -1543,7 +1592,7 @@ theorem connectFailed_all (w : World) (k : Nat) (hph : w.phase = .connackGate k)
     rw [l1] at hk''
     cases hk''
     exact hdead
-  · refine ⟨inv_of_eqs h rfl rfl rfl rfl rfl rfl (fun h => hx h _), ?_, fun k' hk' => by cases hk'⟩
+  · refine ⟨inv_of_eqs h rfl rfl rfl rfl rfl rfl (fun h => hx h.1 _), ?_, fun k' hk' => by cases hk'⟩
     intro hi
     obtain ⟨a, b, c, d⟩ := hk hi
     refine ⟨a, b, fun _ k' hk' => ?_, d⟩
@@ -1552,16 +1601,90 @@ theorem connectFailed_all (w : World) (k : Nat) (hph : w.phase = .connackGate k)
     cases hk''
     exact hdead
 
+theorem kill_dead (w : World) (k : Nat) (hk : k < w.conns.length) :
+    (getConn (kill w k) k).alive = false := by
+  unfold kill
+  rw [getConn_setConn, if_pos ⟨rfl, hk⟩]
+
+/-- the context given to Connect is cancelled while the loop waits for CONNACK on `k`: the
+    connection is closed, Connect returns on it, the loop exits -/
+theorem cancelGate_all (w : World) (k : Nat) (hph : w.phase = .connackGate k)
+    (h : Inv w) (hk : InvK w) (hl : InvL w) :
+    Inv { kill { w with ctxCancelled := true, connReady := true } k with
+            phase := .exited, connectErr := true } ∧
+    InvK { kill { w with ctxCancelled := true, connReady := true } k with
+            phase := .exited, connectErr := true } ∧
+    InvL { kill { w with ctxCancelled := true, connReady := true } k with
+            phase := .exited, connectErr := true } := by
+  obtain ⟨l1, l2, l3⟩ := hl k hph
+  have hdead := kill_dead { w with ctxCancelled := true, connReady := true } k l3
+  refine ⟨inv_of_eqs h rfl rfl rfl rfl rfl rfl
+      (fun hh => by have := hh.1; rw [hph] at this; cases this), ?_, fun k' hk' => by cases hk'⟩
+  intro hi
+  obtain ⟨a, b, c, d⟩ := hk hi
+  refine ⟨a, b, fun _ k' hk' => ?_, d⟩
+  have hk'' : w.cli = some k' := hk'
+  rw [l1] at hk''
+  cases hk''
+  exact hdead
+
 theorem step_all (w : World) (e : Ev) (h : Inv w) (hk : InvK w) (hl : InvL w) :
     Inv (step w e) ∧ InvK (step w e) ∧ InvL (step w e) := by
   cases e with
   | start =>
     simp only [step]
     split
+    · exact ⟨h, hk, hl⟩
     · next hc =>
-      exact ⟨inv_of_eqs h rfl rfl rfl rfl rfl rfl (fun hx => by rw [hc] at hx; cases hx),
+      have hi : w.phase = .idle := Decidable.of_not_not hc
+      have hx : (w.phase = .exited ∧ w.stopped = true) → ∀ (P : Prop), P :=
+        fun hx => by have := hx.1; rw [hi] at this; cases this
+      split
+      · exact ⟨inv_of_eqs h rfl rfl rfl rfl rfl rfl (fun hh => hx hh _),
+          invK_of hk rfl rfl rfl id rfl rfl rfl (fun _ h => h), fun k hk => by cases hk⟩
+      · exact ⟨inv_of_eqs h rfl rfl rfl rfl rfl rfl (fun hh => hx hh _),
+          invK_of hk rfl rfl rfl id rfl rfl rfl (fun _ h => h), fun k hk => by cases hk⟩
+  | waitElapsed =>
+    simp only [step]
+    split
+    · next hc =>
+      exact ⟨inv_of_eqs h rfl rfl rfl rfl rfl rfl
+          (fun hh => by have := hh.1; rw [hc] at this; cases this),
         invK_of hk rfl rfl rfl id rfl rfl rfl (fun _ h => h), fun k hk => by cases hk⟩
     · exact ⟨h, hk, hl⟩
+  | cancelCtx =>
+    simp only [step]
+    split
+    · exact ⟨h, hk, hl⟩
+    · cases hph : w.phase with
+      | idle =>
+        simp only
+        exact ⟨inv_of_eqs h rfl rfl rfl rfl rfl rfl
+            (fun hh => by have := hh.1; rw [hph] at this; cases this),
+          invK_of hk rfl rfl rfl id rfl rfl rfl (fun _ h => h), fun k hk => by cases hk⟩
+      | backoff =>
+        simp only
+        exact ⟨inv_of_eqs h rfl rfl rfl rfl rfl rfl
+            (fun hh => by have := hh.1; rw [hph] at this; cases this),
+          invK_of hk rfl rfl rfl id rfl rfl rfl (fun _ h => h), fun k hk => by cases hk⟩
+      | dialGate =>
+        simp only
+        exact ⟨inv_of_eqs h rfl rfl rfl rfl rfl rfl
+            (fun hh => by have := hh.1; rw [hph] at this; cases this),
+          invK_of hk rfl rfl rfl id rfl rfl rfl (fun _ h => h), fun k hk => by cases hk⟩
+      | connackGate k =>
+        simp only
+        obtain ⟨a, b, c⟩ := cancelGate_all w k hph h hk hl
+        exact ⟨progress_inv _ a, progress_invK _ b, progress_invL _ c⟩
+      | up k =>
+        simp only
+        exact ⟨inv_of_eqs h rfl rfl rfl rfl rfl rfl
+            (fun hh => by have := hh.1; rw [hph] at this; cases this),
+          invK_of hk rfl rfl rfl id rfl rfl rfl (fun _ h => h), fun k hk => by cases hk⟩
+      | exited =>
+        simp only
+        exact ⟨inv_of_eqs h rfl rfl rfl rfl rfl rfl (fun hh => ⟨rfl, hh.2⟩),
+          invK_of hk rfl rfl rfl id rfl rfl rfl (fun _ h => h), fun k hk => by cases hk⟩
   | app r =>
     simp only [step]
     split
@@ -1575,7 +1698,7 @@ theorem step_all (w : World) (e : Ev) (h : Inv w) (hk : InvK w) (hl : InvL w) :
     split
     · exact ⟨h, hk, hl⟩
     · next hc =>
-      refine ⟨inv_of_eqs h rfl rfl rfl rfl rfl rfl (fun hx => by rw [hx] at hc; simp at hc), ?_, ?_⟩
+      refine ⟨inv_of_eqs h rfl rfl rfl rfl rfl rfl (fun hx => by rw [hx.1] at hc; simp at hc), ?_, ?_⟩
       · intro hi
         obtain ⟨a, b, c, d⟩ := hk hi
         have b' : w.stuck = false := b
@@ -1595,11 +1718,15 @@ theorem step_all (w : World) (e : Ev) (h : Inv w) (hk : InvK w) (hl : InvL w) :
     simp only [step]
     split
     · exact ⟨h, hk, hl⟩
-    · split
-      · exact ⟨inv_of_eqs h rfl rfl rfl rfl rfl rfl (fun _ => rfl),
+    · next hc =>
+      have hd : w.phase = .dialGate := Decidable.of_not_not hc
+      split
+      · next hs =>
+        exact ⟨inv_of_eqs h rfl rfl rfl rfl rfl rfl (fun _ => ⟨rfl, hs⟩),
           invK_of hk rfl rfl rfl id rfl rfl rfl (fun _ h => h), fun k hk => by cases hk⟩
-      · exact ⟨inv_of_eqs h rfl rfl rfl rfl rfl rfl id,
-          invK_of hk rfl rfl rfl id rfl rfl rfl (fun _ h => h), invL_of_eqs hl (fun _ h => h) rfl rfl rfl⟩
+      · exact ⟨inv_of_eqs h rfl rfl rfl rfl rfl rfl
+            (fun hh => by have := hh.1; rw [hd] at this; cases this),
+          invK_of hk rfl rfl rfl id rfl rfl rfl (fun _ h => h), fun k hk => by cases hk⟩
   | connackOk sp inb =>
     cases hph : w.phase with
     | connackGate k =>
@@ -1613,6 +1740,7 @@ theorem step_all (w : World) (e : Ev) (h : Inv w) (hk : InvK w) (hl : InvL w) :
         split at this <;> cases this
     | idle => simp only [step, hph]; exact ⟨h, hk, hl⟩
     | dialGate => simp only [step, hph]; exact ⟨h, hk, hl⟩
+    | backoff => simp only [step, hph]; exact ⟨h, hk, hl⟩
     | up k => simp only [step, hph]; exact ⟨h, hk, hl⟩
     | exited => simp only [step, hph]; exact ⟨h, hk, hl⟩
   | connackRefused =>
@@ -1623,6 +1751,7 @@ theorem step_all (w : World) (e : Ev) (h : Inv w) (hk : InvK w) (hl : InvL w) :
       exact ⟨progress_inv _ a, progress_invK _ b, progress_invL _ c⟩
     | idle => simp only [step, hph]; exact ⟨h, hk, hl⟩
     | dialGate => simp only [step, hph]; exact ⟨h, hk, hl⟩
+    | backoff => simp only [step, hph]; exact ⟨h, hk, hl⟩
     | up k => simp only [step, hph]; exact ⟨h, hk, hl⟩
     | exited => simp only [step, hph]; exact ⟨h, hk, hl⟩
   | connackNever =>
@@ -1635,6 +1764,7 @@ theorem step_all (w : World) (e : Ev) (h : Inv w) (hk : InvK w) (hl : InvL w) :
       · exact ⟨h, hk, hl⟩
     | idle => simp only [step, hph]; exact ⟨h, hk, hl⟩
     | dialGate => simp only [step, hph]; exact ⟨h, hk, hl⟩
+    | backoff => simp only [step, hph]; exact ⟨h, hk, hl⟩
     | up k => simp only [step, hph]; exact ⟨h, hk, hl⟩
     | exited => simp only [step, hph]; exact ⟨h, hk, hl⟩
   | peerClose =>
@@ -1646,6 +1776,7 @@ theorem step_all (w : World) (e : Ev) (h : Inv w) (hk : InvK w) (hl : InvL w) :
         progress_invL _ (invL_of_eqs hl (fun _ h => h) rfl rfl (len_kill w k))⟩
     | idle => simp only [step, hph]; exact ⟨h, hk, hl⟩
     | dialGate => simp only [step, hph]; exact ⟨h, hk, hl⟩
+    | backoff => simp only [step, hph]; exact ⟨h, hk, hl⟩
     | connackGate k => simp only [step, hph]; exact ⟨h, hk, hl⟩
     | exited => simp only [step, hph]; exact ⟨h, hk, hl⟩
   | inbound m qos =>
@@ -1656,6 +1787,7 @@ theorem step_all (w : World) (e : Ev) (h : Inv w) (hk : InvK w) (hl : InvL w) :
       exact ⟨inv_of_same s h, invK_of_same s hk, invL_of_same s hl⟩
     | idle => simp only [step, hph]; exact ⟨h, hk, hl⟩
     | dialGate => simp only [step, hph]; exact ⟨h, hk, hl⟩
+    | backoff => simp only [step, hph]; exact ⟨h, hk, hl⟩
     | connackGate k => simp only [step, hph]; exact ⟨h, hk, hl⟩
     | exited => simp only [step, hph]; exact ⟨h, hk, hl⟩
   | handle hd =>
@@ -1674,15 +1806,18 @@ theorem step_all (w : World) (e : Ev) (h : Inv w) (hk : InvK w) (hl : InvL w) :
     split
     · exact ⟨h, hk, hl⟩
     · have a : Inv (progress { pushTask w .disconnect with stopped := true }) :=
-        progress_inv _ (inv_of_eqs (push_inv w .disconnect rfl h) rfl rfl rfl rfl rfl rfl id)
+        progress_inv _ (inv_of_eqs (push_inv w .disconnect rfl h) rfl rfl rfl rfl rfl rfl
+          (fun hh => ⟨hh.1, rfl⟩))
       have b : InvK (progress { pushTask w .disconnect with stopped := true }) :=
         progress_invK _ (invK_of hk rfl rfl rfl id rfl rfl rfl (fun _ h => h))
       have c : InvL (progress { pushTask w .disconnect with stopped := true }) :=
         progress_invL _ (invL_of_eqs hl (fun _ h => h) rfl rfl rfl)
+      have hst : (progress { pushTask w .disconnect with stopped := true }).stopped = true :=
+        progress_stopped _
       split
-      · exact ⟨inv_of_eqs a rfl rfl rfl rfl rfl rfl (fun _ => rfl),
+      · exact ⟨inv_of_eqs a rfl rfl rfl rfl rfl rfl (fun _ => ⟨rfl, hst⟩),
           invK_of b rfl rfl rfl id rfl rfl rfl (fun _ h => h), fun k hk => by cases hk⟩
-      · exact ⟨inv_of_eqs a rfl rfl rfl rfl rfl rfl (fun _ => rfl),
+      · exact ⟨inv_of_eqs a rfl rfl rfl rfl rfl rfl (fun _ => ⟨rfl, hst⟩),
           invK_of b rfl rfl rfl id rfl rfl rfl (fun _ h => h), fun k hk => by cases hk⟩
       · exact ⟨a, b, c⟩
 
@@ -1776,6 +1911,35 @@ theorem progress_done (w : World) (k : Nat) (hg : w.goroutine = true)
   rw [a, b]
   exact runTasks_done _ w k hg hc hcli (Nat.lt_succ_self _)
 
+/-- the cancellation of the context given to Connect leaves the client's bookkeeping alone -/
+theorem step_cancel_eqs (w : World) :
+    (step w .cancelCtx).initialized = w.initialized ∧
+    (step w .cancelCtx).taskQ <:+ w.taskQ ∧
+    (step w .cancelCtx).stopped = w.stopped ∧
+    (step w .cancelCtx).accepted = w.accepted := by
+  simp only [step]
+  split
+  · exact ⟨rfl, List.suffix_refl _, rfl, rfl⟩
+  · cases hph : w.phase with
+    | connackGate k =>
+      simp only
+      exact ⟨(progress_fields _).1, (progress_more _).2, progress_stopped _, (progress_more _).1⟩
+    | idle =>
+      simp only
+      refine ⟨?_, ?_, ?_, ?_⟩ <;> first | trivial | rfl | exact List.suffix_refl _
+    | backoff =>
+      simp only
+      refine ⟨?_, ?_, ?_, ?_⟩ <;> first | trivial | rfl | exact List.suffix_refl _
+    | dialGate =>
+      simp only
+      refine ⟨?_, ?_, ?_, ?_⟩ <;> first | trivial | rfl | exact List.suffix_refl _
+    | up k =>
+      simp only
+      refine ⟨?_, ?_, ?_, ?_⟩ <;> first | trivial | rfl | exact List.suffix_refl _
+    | exited =>
+      simp only
+      refine ⟨?_, ?_, ?_, ?_⟩ <;> first | trivial | rfl | exact List.suffix_refl _
+
 theorem connectFailed_eqs (w : World) (k : Nat) :
     (connectFailed w k).initialized = w.initialized ∧ (connectFailed w k).taskQ = w.taskQ := by
   unfold connectFailed
@@ -1787,7 +1951,13 @@ theorem step_initialized (w : World) (e : Ev) (h : (step w e).initialized = true
     w.initialized = true ∨ ∃ sp inb, e = .connackOk sp inb := by
   cases e with
   | connackOk sp inb => exact Or.inr ⟨sp, inb, rfl⟩
-  | start => left; simp only [step] at h; split at h <;> exact h
+  | start =>
+    left; simp only [step] at h
+    split at h
+    · exact h
+    · split at h <;> exact h
+  | waitElapsed => left; simp only [step] at h; split at h <;> exact h
+  | cancelCtx => left; rw [(step_cancel_eqs w).1] at h; exact h
   | app r =>
     left; simp only [step] at h
     split at h
@@ -1862,9 +2032,16 @@ theorem step_resub_mem (w : World) (e : Ev) (h : Task.resubscribe ∈ (step w e)
         | inr hm => split at hm <;> simp at hm
     | idle => simp only [step, hph] at h; exact Or.inl h
     | dialGate => simp only [step, hph] at h; exact Or.inl h
+    | backoff => simp only [step, hph] at h; exact Or.inl h
     | up k => simp only [step, hph] at h; exact Or.inl h
     | exited => simp only [step, hph] at h; exact Or.inl h
-  | start => left; simp only [step] at h; split at h <;> exact h
+  | start =>
+    left; simp only [step] at h
+    split at h
+    · exact h
+    · split at h <;> exact h
+  | waitElapsed => left; simp only [step] at h; split at h <;> exact h
+  | cancelCtx => left; exact (step_cancel_eqs w).2.1.subset h
   | app r =>
     left; simp only [step] at h
     split at h
@@ -2129,9 +2306,16 @@ theorem step_initialized_mono (w : World) (e : Ev) (h : w.initialized = true) :
       exact (connackPre_fields w k sp inb).2.2.2.2.2.2.2.2.2.2.1
     | idle => simp only [step, hph]; exact h
     | dialGate => simp only [step, hph]; exact h
+    | backoff => simp only [step, hph]; exact h
     | up k => simp only [step, hph]; exact h
     | exited => simp only [step, hph]; exact h
-  | start => simp only [step]; split <;> exact h
+  | start =>
+    simp only [step]
+    split
+    · exact h
+    · split <;> exact h
+  | waitElapsed => simp only [step]; split <;> exact h
+  | cancelCtx => rw [(step_cancel_eqs w).1]; exact h
   | app r =>
     simp only [step]
     split
@@ -2190,13 +2374,6 @@ theorem mem_pendOf_sub {q : List Entry} {l : List Subscription} (h : SubCall.sub
   | inl h => exact Or.inl (h ▸ he)
   | inr h => exact Or.inr (h ▸ he)
 
-theorem runTasks_stopped (n : Nat) (w : World) : (runTasks n w).stopped = w.stopped := by
-  refine runTasks_induct (fun w' => w'.stopped = w.stopped) ?_ ?_ ?_ runTask_cli n w rfl
-  · intro w' h _ _ _; exact h
-  · intro w' k t rest h _ _ _ _ _
-    exact (runTask_frame { w' with taskQ := rest, totalTasks := w'.totalTasks + 1 } k t).stopped.trans h
-  · intro w' k h _ _; exact h
-
 theorem loopReact_exited (w : World) (h : (loopReact w).phase = .exited) :
     w.phase = .exited ∨ w.stopped = true := by
   unfold loopReact at h
@@ -2215,18 +2392,6 @@ theorem progress_exited (w : World) (h : (progress w).phase = .exited) :
   | inl h1 => exact Or.inl ((runTasks_field _ w).2.1 ▸ h1)
   | inr h1 => exact Or.inr ((runTasks_stopped _ w) ▸ h1)
 
-theorem progress_stopped (w : World) : (progress w).stopped = w.stopped := by
-  have : ∀ w : World, (loopReact w).stopped = w.stopped := by
-    intro w
-    unfold loopReact
-    split
-    · split
-      · rfl
-      · split <;> rfl
-    · rfl
-  unfold progress
-  rw [this, runTasks_stopped]
-
 theorem connectFailed_stopped (w : World) (k : Nat) :
     (connectFailed w k).stopped = w.stopped ∧
     ((connectFailed w k).phase = .exited → w.stopped = true) := by
@@ -2240,24 +2405,48 @@ def evIsDisconnect : Ev → Bool
   | .disconnect => true
   | _ => false
 
-/-- `stopped` is set by the Disconnect event only, and the reconnect loop exits only when stopped -/
+/-- `stopped` is set by the Disconnect event only, and the reconnect loop exits only when stopped or
+    when the context given to Connect was cancelled before Connect returned -/
 theorem step_stopped_exited (w : World) (e : Ev) :
     ((step w e).stopped = true → w.stopped = true ∨ evIsDisconnect e = true) ∧
-    ((w.phase = .exited → w.stopped = true) →
-      (step w e).phase = .exited → (step w e).stopped = true) := by
-  have pr : ∀ w0 : World, (w0.phase = .exited → w0.stopped = true) →
-      (progress w0).phase = .exited → (progress w0).stopped = true := by
+    ((w.phase = .exited → w.stopped = true ∨ w.ctxCancelled = true) →
+      (step w e).phase = .exited → (step w e).stopped = true ∨ (step w e).ctxCancelled = true) := by
+  have pr : ∀ w0 : World, (w0.phase = .exited → w0.stopped = true ∨ w0.ctxCancelled = true) →
+      (progress w0).phase = .exited →
+        (progress w0).stopped = true ∨ (progress w0).ctxCancelled = true := by
     intro w0 h0 hp
-    rw [progress_stopped]
+    rw [progress_stopped, progress_ctx]
     cases progress_exited w0 hp with
     | inl h => exact h0 h
-    | inr h => exact h
+    | inr h => exact Or.inl h
   cases e with
   | start =>
     simp only [step]
     split
+    · exact ⟨fun h => Or.inl h, fun h0 h => h0 h⟩
+    · split
+      · next hcc => exact ⟨fun h => Or.inl h, fun _ _ => Or.inr hcc⟩
+      · exact ⟨fun h => Or.inl h, fun _ h => by cases h⟩
+  | waitElapsed =>
+    simp only [step]
+    split
     · exact ⟨fun h => Or.inl h, fun _ h => by cases h⟩
     · exact ⟨fun h => Or.inl h, fun h0 h => h0 h⟩
+  | cancelCtx =>
+    refine ⟨fun h => Or.inl ((step_cancel_eqs w).2.2.1 ▸ h), fun h0 h => ?_⟩
+    by_cases hg : w.ctxCancelled = true ∨ w.connectReturned.isSome = true
+    · have hw : step w .cancelCtx = w := by simp only [step, if_pos hg]
+      rw [hw] at h ⊢
+      exact h0 h
+    · right
+      simp only [step, if_neg hg]
+      cases hph : w.phase with
+      | connackGate k => simp only; rw [progress_ctx]; rfl
+      | idle => simp only
+      | backoff => simp only
+      | dialGate => simp only
+      | up k => simp only
+      | exited => simp only
   | app r =>
     simp only [step]
     split
@@ -2273,8 +2462,8 @@ theorem step_stopped_exited (w : World) (e : Ev) :
     split
     · exact ⟨fun h => Or.inl h, fun h0 h => h0 h⟩
     · split
-      · next hs => exact ⟨fun h => Or.inl h, fun _ _ => hs⟩
-      · exact ⟨fun h => Or.inl h, fun h0 h => h0 h⟩
+      · next hs => exact ⟨fun h => Or.inl h, fun _ _ => Or.inl hs⟩
+      · exact ⟨fun h => Or.inl h, fun _ h => by cases h⟩
   | connackOk sp inb =>
     cases hph : w.phase with
     | connackGate k =>
@@ -2284,26 +2473,29 @@ theorem step_stopped_exited (w : World) (e : Ev) :
       refine ⟨fun h => Or.inl ?_, fun _ h => pr _ ?_ h⟩
       · rw [progress_stopped, p13, f13] at h; exact h
       · intro hx
+        left
         rw [p12] at hx
         rw [p13]
         split at hx
         · next hs => exact hs
         · cases hx
     | idle => simp only [step, hph]; exact ⟨fun h => Or.inl h, fun h0 h => h0 (hph ▸ h)⟩
+    | backoff => simp only [step, hph]; exact ⟨fun h => Or.inl h, fun h0 h => h0 (hph ▸ h)⟩
     | dialGate => simp only [step, hph]; exact ⟨fun h => Or.inl h, fun h0 h => h0 (hph ▸ h)⟩
     | up k => simp only [step, hph]; exact ⟨fun h => Or.inl h, fun h0 h => h0 (hph ▸ h)⟩
-    | exited => simp only [step, hph]; exact ⟨fun h => Or.inl h, fun h0 _ => by simpa using h0⟩
+    | exited => simp only [step, hph]; exact ⟨fun h => Or.inl h, fun h0 _ => h0 trivial⟩
   | connackRefused =>
     cases hph : w.phase with
     | connackGate k =>
       simp only [step, hph]
       obtain ⟨c1, c2⟩ := connectFailed_stopped w k
       exact ⟨fun h => Or.inl (by rw [progress_stopped, c1] at h; exact h),
-        fun _ h => pr _ (fun hx => c1 ▸ c2 hx) h⟩
+        fun _ h => pr _ (fun hx => Or.inl (c1.trans (c2 hx))) h⟩
     | idle => simp only [step, hph]; exact ⟨fun h => Or.inl h, fun h0 h => h0 (hph ▸ h)⟩
+    | backoff => simp only [step, hph]; exact ⟨fun h => Or.inl h, fun h0 h => h0 (hph ▸ h)⟩
     | dialGate => simp only [step, hph]; exact ⟨fun h => Or.inl h, fun h0 h => h0 (hph ▸ h)⟩
     | up k => simp only [step, hph]; exact ⟨fun h => Or.inl h, fun h0 h => h0 (hph ▸ h)⟩
-    | exited => simp only [step, hph]; exact ⟨fun h => Or.inl h, fun h0 _ => by simpa using h0⟩
+    | exited => simp only [step, hph]; exact ⟨fun h => Or.inl h, fun h0 _ => h0 trivial⟩
   | connackNever =>
     cases hph : w.phase with
     | connackGate k =>
@@ -2311,12 +2503,13 @@ theorem step_stopped_exited (w : World) (e : Ev) :
       split
       · obtain ⟨c1, c2⟩ := connectFailed_stopped w k
         exact ⟨fun h => Or.inl (by rw [progress_stopped, c1] at h; exact h),
-          fun _ h => pr _ (fun hx => c1 ▸ c2 hx) h⟩
+          fun _ h => pr _ (fun hx => Or.inl (c1.trans (c2 hx))) h⟩
       · exact ⟨fun h => Or.inl h, fun h0 h => h0 (hph ▸ h)⟩
     | idle => simp only [step, hph]; exact ⟨fun h => Or.inl h, fun h0 h => h0 (hph ▸ h)⟩
+    | backoff => simp only [step, hph]; exact ⟨fun h => Or.inl h, fun h0 h => h0 (hph ▸ h)⟩
     | dialGate => simp only [step, hph]; exact ⟨fun h => Or.inl h, fun h0 h => h0 (hph ▸ h)⟩
     | up k => simp only [step, hph]; exact ⟨fun h => Or.inl h, fun h0 h => h0 (hph ▸ h)⟩
-    | exited => simp only [step, hph]; exact ⟨fun h => Or.inl h, fun h0 _ => by simpa using h0⟩
+    | exited => simp only [step, hph]; exact ⟨fun h => Or.inl h, fun h0 _ => h0 trivial⟩
   | peerClose =>
     cases hph : w.phase with
     | up k =>
@@ -2326,9 +2519,10 @@ theorem step_stopped_exited (w : World) (e : Ev) :
           have : w.phase = .exited := hx
           rw [hph] at this; cases this) h⟩
     | idle => simp only [step, hph]; exact ⟨fun h => Or.inl h, fun h0 h => h0 (hph ▸ h)⟩
+    | backoff => simp only [step, hph]; exact ⟨fun h => Or.inl h, fun h0 h => h0 (hph ▸ h)⟩
     | dialGate => simp only [step, hph]; exact ⟨fun h => Or.inl h, fun h0 h => h0 (hph ▸ h)⟩
     | connackGate k => simp only [step, hph]; exact ⟨fun h => Or.inl h, fun h0 h => h0 (hph ▸ h)⟩
-    | exited => simp only [step, hph]; exact ⟨fun h => Or.inl h, fun h0 _ => by simpa using h0⟩
+    | exited => simp only [step, hph]; exact ⟨fun h => Or.inl h, fun h0 _ => h0 trivial⟩
   | inbound m qos =>
     cases hph : w.phase with
     | up k =>
@@ -2336,9 +2530,10 @@ theorem step_stopped_exited (w : World) (e : Ev) :
       have sm := deliverInbound_same w k m qos
       exact ⟨fun h => Or.inl (sm.stopped ▸ h), fun _ h => by rw [sm.phase, hph] at h; cases h⟩
     | idle => simp only [step, hph]; exact ⟨fun h => Or.inl h, fun h0 h => h0 (hph ▸ h)⟩
+    | backoff => simp only [step, hph]; exact ⟨fun h => Or.inl h, fun h0 h => h0 (hph ▸ h)⟩
     | dialGate => simp only [step, hph]; exact ⟨fun h => Or.inl h, fun h0 h => h0 (hph ▸ h)⟩
     | connackGate k => simp only [step, hph]; exact ⟨fun h => Or.inl h, fun h0 h => h0 (hph ▸ h)⟩
-    | exited => simp only [step, hph]; exact ⟨fun h => Or.inl h, fun h0 _ => by simpa using h0⟩
+    | exited => simp only [step, hph]; exact ⟨fun h => Or.inl h, fun h0 _ => h0 trivial⟩
   | handle hd =>
     simp only [step]
     split
@@ -2348,9 +2543,91 @@ theorem step_stopped_exited (w : World) (e : Ev) :
     refine ⟨fun _ => Or.inr rfl, fun h0 h => ?_⟩
     simp only [step] at h ⊢
     split
-    · next hs => exact hs
+    · next hs => exact Or.inl hs
     · have : (progress { pushTask w .disconnect with stopped := true }).stopped = true := by
         rw [progress_stopped]
-      split <;> exact this
+      split <;> exact Or.inl this
+
+def evIsCancel : Ev → Bool
+  | .cancelCtx => true
+  | _ => false
+
+theorem connackPre_ctx (w : World) (k : Nat) (sp : Bool) (inb : List (Nat × Nat)) :
+    (connackPre w k sp inb).ctxCancelled = w.ctxCancelled := by
+  have s := inbFold_same inb (cp1 w k sp) k
+  have h3 : (cp3 w k sp inb).ctxCancelled = w.ctxCancelled := s.ctxCancelled
+  rw [← h3]
+  unfold connackPre
+  dsimp only
+  split <;> split <;> rfl
+
+theorem connectFailed_ctx (w : World) (k : Nat) :
+    (connectFailed w k).ctxCancelled = w.ctxCancelled := by
+  unfold connectFailed
+  dsimp only
+  split <;> rfl
+
+/-- `ctxCancelled` is set by the `.cancelCtx` event only -/
+theorem step_ctx (w : World) (e : Ev) (h : (step w e).ctxCancelled = true) :
+    w.ctxCancelled = true ∨ evIsCancel e = true := by
+  cases e with
+  | cancelCtx => exact Or.inr rfl
+  | start =>
+    left; simp only [step] at h
+    split at h
+    · exact h
+    · split at h <;> exact h
+  | waitElapsed => left; simp only [step] at h; split at h <;> exact h
+  | app r =>
+    left; simp only [step] at h
+    split at h
+    · exact h
+    · rw [progress_ctx] at h; exact h
+  | dialOk i => left; simp only [step] at h; split at h <;> exact h
+  | dialFail =>
+    left; simp only [step] at h
+    split at h
+    · exact h
+    · split at h <;> exact h
+  | connackOk sp inb =>
+    left
+    cases hph : w.phase with
+    | connackGate k =>
+      rw [step_connackOk w k sp inb hph, progress_ctx, connackPre_ctx] at h; exact h
+    | idle => simp only [step, hph] at h; exact h
+    | backoff => simp only [step, hph] at h; exact h
+    | dialGate => simp only [step, hph] at h; exact h
+    | up k => simp only [step, hph] at h; exact h
+    | exited => simp only [step, hph] at h; exact h
+  | connackRefused =>
+    left; simp only [step] at h
+    split at h
+    · rw [progress_ctx, connectFailed_ctx] at h; exact h
+    · exact h
+  | connackNever =>
+    left; simp only [step] at h
+    split at h
+    · split at h
+      · rw [progress_ctx, connectFailed_ctx] at h; exact h
+      · exact h
+    · exact h
+  | peerClose =>
+    left; simp only [step] at h
+    split at h
+    · rw [progress_ctx] at h; exact h
+    · exact h
+  | inbound m qos =>
+    left; simp only [step] at h
+    split at h
+    · rw [(deliverInbound_same _ _ _ _).ctxCancelled] at h; exact h
+    · exact h
+  | handle hd => left; simp only [step] at h; split at h <;> exact h
+  | disconnect =>
+    left; simp only [step] at h
+    split at h
+    · exact h
+    · have : (progress { pushTask w .disconnect with stopped := true }).ctxCancelled = true := by
+        split at h <;> exact h
+      rw [progress_ctx] at this; exact this
 
 end Mqtt.Retry
